@@ -2,7 +2,8 @@
     harness wrote (outputs of the real route.Table.Lookup, gobwas/glob and
     route.ReverseHostPort next to the inputs that produced them). *)
 From Coq Require Import List NArith Bool.
-From Fabio Require Import Lib.Bytes Lib.Verdict Model.Glob Model.Lookup.
+From Fabio Require Import Lib.Outcome Lib.Bytes Lib.Verdict Model.Glob Model.Lookup Model.LookupCmd.
+From Fabio Require Model.TableCmd.
 Import ListNotations.
 Local Open Scope N_scope.
 
@@ -16,6 +17,14 @@ Inductive case :=
 (* Table.LookupHost(host, pick) (TCP/SNI routing): the key is the lower-cased host itself,
    the path is "/" under the prefix matcher *)
 | CLookupHost (defs : list def) (host : str) (impl : option N)
+(* a table built by route.NewTable from a SEQUENCE of route add / del / weight commands
+   (mixed-case hosts, tag selectors), one request; impl: Err = NewTable rejected the text,
+   Ok None = Lookup returned nil, Ok (Some (host key, path)) = the route that holds the
+   returned target *)
+| CCmdLookup (cmds : list cdef) (host : str) (tls : bool) (uri : str) (m : N) (globoff : bool)
+             (impl : outcome (option (str * str)))
+(* sortHostsReverseHostPort(hosts) (through the hook VerifSortHosts) *)
+| CSortHosts (hosts : list str) (impl : list str)
 (* glob.MustCompile(pattern).Match(s) *)
 | CGlob (pattern s : str) (impl : bool)
 (* route.ReverseHostPort(s) *)
@@ -68,6 +77,44 @@ Definition check_case (c : case) : N :=
         | Some id => existsb (fun c : cand => (snd c =? id) && ok c) (all_routes t)
         end in
       verdict same spec None (is_some model)
+  | CCmdLookup cmds host tls uri mn globoff impl =>
+      let src_ok (c : cdef) :=
+        let '(_, _, src, _, _, _) := c in
+        match src with
+        | [] => true
+        | _ => let '(h, p) := TableCmd.hostpath src in key_domain h && glob_domain p
+        end in
+      if negb (forallb src_ok cmds && subject_domain host && no_bracket host && subject_domain uri)
+      then v_disagree else
+      let m := matcher_of mn in
+      match cmd_table cmds, impl with
+      | Ok t, Ok sel =>
+          let model := match lookup_cmd t host tls uri m globoff with
+                       | Some (k, p, _) => Some (k, p) | None => None end in
+          let pair_eqb (a b : str * str) := beq (fst a) (fst b) && beq (snd a) (snd b) in
+          let same := opt_eqb pair_eqb sel model in
+          let spec :=
+            match sel with
+            | None => spec_b t globoff tls m host uri None
+            | Some (k, p) =>
+                match find (fun c : cand => beq (fst (fst c)) k && beq (snd (fst c)) p) (all_routes t) with
+                | Some c => spec_b t globoff tls m host uri (Some c)
+                | None => false
+                end
+            end in
+          verdict same spec (region t globoff tls m host uri)
+                  (Nat.leb 2 (length (candidates t globoff tls m host uri)))
+      | Err _, Err _ => v_agree_trivial
+      | Panic, Panic => v_disagree_spec_fails
+      | _, _ => v_disagree
+      end
+  | CSortHosts hosts impl =>
+      if negb (forallb (fun h => subject_domain h && match h with 91 :: _ => false | _ => true end) hosts)
+      then v_disagree else
+      let same := list_eqb beq impl (sort_hosts_rhp hosts) in
+      (* spec: the hosts handed on are exactly the hosts handed in (a permutation) *)
+      let spec := list_eqb beq (sort_desc str_ltb impl) (sort_desc str_ltb hosts) in
+      verdict same spec None (Nat.leb 2 (length hosts))
   | CGlob pattern s impl =>
       if negb (glob_domain pattern && subject_domain s) then v_disagree else
       verdict (Bool.eqb impl (gobwas_match pattern s)) (Bool.eqb impl (glob_match pattern s))
